@@ -8,7 +8,7 @@ CONFIG = {
         # file-backed SQLite on tmpfs: readers must be able to run while the commit transaction is open
         # (the in-memory driver uses a shared cache and would serialise them behind the writer)
         "env": {"quick": {"VERIF_C08_CASES": 22, "VERIF_C08_OPS": 38, "TMPDIR": "/dev/shm"},
-                "thorough": {"VERIF_C08_CASES": 200, "VERIF_C08_OPS": 60, "TMPDIR": "/dev/shm"}},
+                "thorough": {"VERIF_C08_CASES": 200, "VERIF_C08_OPS": 60, "VERIF_C08_PATFULL": 1, "TMPDIR": "/dev/shm"}},
         "timeout": {"quick": 900, "thorough": 3400},
         "search_tier": "quick",
     }],
